@@ -145,6 +145,18 @@ macro_rules! scalar_drivers {
                 cmp::<$T>($acc, "third_derivative", $tname, "-", "df", &h1, &c, &want, &mag, 1);
                 cmp::<$T>($acc, "third_derivative", $tname, "-", "d2f", &h2, &c, &want, &mag, 2);
                 cmp::<$T>($acc, "third_derivative", $tname, "-", "d3f", &h3, &c, &want, &mag, 3);
+                // the documented manual route (seed with the public `derivative()` methods, evaluate,
+                // read the fields) must give exactly what the drivers return
+                let m1 = p.eval(&[Dual::<$T, F>::from_re(x[0].clone()).derivative()]).pop().unwrap();
+                let m2 = p.eval(&[Dual2::<$T, F>::from_re(x[0].clone()).derivative()]).pop().unwrap();
+                let m3 = p.eval(&[Dual3::<$T, F>::from_re(x[0].clone()).derivative()]).pop().unwrap();
+                $acc.observe(&format!("manual-seeding:derivative()|{}", $tname), true);
+                if !(same_bits(&m1.re, &f0, &c.elem) && same_bits(&m1.eps, &f1, &c.elem)
+                    && same_bits(&m2.re, &g0, &c.elem) && same_bits(&m2.v1, &g1, &c.elem) && same_bits(&m2.v2, &g2, &c.elem)
+                    && same_bits(&m3.re, &h0, &c.elem) && same_bits(&m3.v1, &h1, &c.elem) && same_bits(&m3.v2, &h2, &c.elem) && same_bits(&m3.v3, &h3, &c.elem))
+                {
+                    $acc.violate(format!("manual-seeding:scalar:{}", $tname), format!("Dual/Dual2/Dual3::from_re(x).derivative() evaluated by hand differs from first/second/third_derivative on {}", $tname), c.json());
+                }
                 // try_ variants: Ok == infallible bitwise; Err passes the token through, closure entered once
                 let t1 = try_first_derivative(|d: Dual<$T, F>| Ok::<_, Token>(p.eval(&[d]).pop().unwrap()), x[0].clone()).unwrap();
                 let t2 = try_second_derivative(|d: Dual2<$T, F>| Ok::<_, Token>(p.eval(&[d]).pop().unwrap()), x[0].clone()).unwrap();
@@ -183,6 +195,11 @@ macro_rules! scalar_drivers {
                 cmp::<$T>($acc, "second_partial_derivative", $tname, "-", "df/dx", &fx, &c, &want, &mag, 1);
                 cmp::<$T>($acc, "second_partial_derivative", $tname, "-", "df/dy", &fy, &c, &want, &mag, 2);
                 cmp::<$T>($acc, "second_partial_derivative", $tname, "-", "d2f/dxdy", &fxy, &c, &want, &mag, 3);
+                let mh = p.eval(&[HyperDual::<$T, F>::from_re(x[0].clone()).derivative1(), HyperDual::<$T, F>::from_re(x[1].clone()).derivative2(), HyperDual::from_re(z0.clone())]).pop().unwrap();
+                $acc.observe(&format!("manual-seeding:derivative1/2()|{}", $tname), true);
+                if !(same_bits(&mh.re, &f, &c.elem) && same_bits(&mh.eps1, &fx, &c.elem) && same_bits(&mh.eps2, &fy, &c.elem) && same_bits(&mh.eps1eps2, &fxy, &c.elem)) {
+                    $acc.violate(format!("manual-seeding:second_partial:{}", $tname), format!("HyperDual derivative1()/derivative2() evaluated by hand differs from second_partial_derivative on {}", $tname), c.json());
+                }
                 let t = try_second_partial_derivative(|a: HyperDual<$T, F>, b: HyperDual<$T, F>| Ok::<_, Token>(p.eval(&[a, b, HyperDual::from_re(z0.clone())]).pop().unwrap()), x[0].clone(), x[1].clone()).unwrap();
                 if !(same_bits(&t.0, &f, &c.elem) && same_bits(&t.1, &fx, &c.elem) && same_bits(&t.2, &fy, &c.elem) && same_bits(&t.3, &fxy, &c.elem)) {
                     $acc.violate(format!("try-ok:second_partial:{}", $tname), "try_second_partial_derivative Ok differs from the infallible variant".into(), c.json());
@@ -204,6 +221,15 @@ macro_rules! scalar_drivers {
                 let arr = [&t8.0, &t8.1, &t8.2, &t8.3, &t8.4, &t8.5, &t8.6, &t8.7];
                 for o in 0..8 {
                     cmp::<$T>($acc, "third_partial_derivative", $tname, "-", names[o], arr[o], &c, &want, &mag, o);
+                }
+                let mh = p
+                    .eval(&[HyperHyperDual::<$T, F>::from_re(x[0].clone()).derivative1(), HyperHyperDual::<$T, F>::from_re(x[1].clone()).derivative2(), HyperHyperDual::<$T, F>::from_re(x[2].clone()).derivative3()])
+                    .pop()
+                    .unwrap();
+                let marr = [&mh.re, &mh.eps1, &mh.eps2, &mh.eps3, &mh.eps1eps2, &mh.eps1eps3, &mh.eps2eps3, &mh.eps1eps2eps3];
+                $acc.observe(&format!("manual-seeding:derivative1/2/3()|{}", $tname), true);
+                if !(0..8).all(|o| same_bits(marr[o], arr[o], &c.elem)) {
+                    $acc.violate(format!("manual-seeding:third_partial:{}", $tname), format!("HyperHyperDual derivative1/2/3() evaluated by hand differs from third_partial_derivative on {}", $tname), c.json());
                 }
                 let t = try_third_partial_derivative(|a: HyperHyperDual<$T, F>, b: HyperHyperDual<$T, F>, cc: HyperHyperDual<$T, F>| Ok::<_, Token>(p.eval(&[a, b, cc]).pop().unwrap()), x[0].clone(), x[1].clone(), x[2].clone()).unwrap();
                 let tarr = [&t.0, &t.1, &t.2, &t.3, &t.4, &t.5, &t.6, &t.7];
